@@ -109,7 +109,7 @@ def _ite(decide, cond, a, b):
 
 def evaluate(t, env, side, decide=None):
     """z3 term (64-bit) of the tree's value; `side` collects conditions under which the model's
-    value is defined by the statement (operand of ~ non-negative and below 2^32, shifts >= 0)."""
+    value is defined by the statement (magnitude of the operand of ~ below 2^32, shifts >= 0)."""
     if t[0] == "leaf":
         return env[t[1]]
     if t[0] == "lit":
@@ -118,8 +118,10 @@ def evaluate(t, env, side, decide=None):
         v = evaluate(t[2], env, side, decide)
         if t[1] == "-":
             return -v
-        side.append(z3.And(v >= 0, v < (1 << 32)))
-        return _ite(decide, v < 0x100, ~v & 0xFF, _ite(decide, v < 0x10000, ~v & 0xFFFF, ~v & 0xFFFFFFFF))
+        # "the smallest of 8, 16 or 32 bits that holds v": by magnitude (also for negative v)
+        mag = z3.If(v < 0, -v, v)
+        side.append(mag < (1 << 32))
+        return _ite(decide, mag < 0x100, ~v & 0xFF, _ite(decide, mag < 0x10000, ~v & 0xFFFF, ~v & 0xFFFFFFFF))
     a, b = evaluate(t[2], env, side, decide), evaluate(t[3], env, side, decide)
     op = t[1]
     if op == "+":
